@@ -136,6 +136,7 @@ def run(ctx, rep):
     b1(ctx, rep, T)
     b2(ctx, rep)
     b3(ctx, rep, T)
+    b6(ctx, rep, T)
     # B4: truncating rewrite (shared with C17 W5)
     sub = core.Report('C10', rep.tier)
     c17.run(ctx, sub)
@@ -199,6 +200,37 @@ def b2(ctx, rep):
             lits |= {l.get('v') for l in vt.lits(a) if l.get('t') == 'str'}
     missing = sorted(set(ref['python']) - lits)
     rep.check(not missing, 'B2', 'python:keyword-table', f'{len(lits)} keywords', f"the Python keyword list lacks {missing}: a field of that name is emitted as a bare attribute and the module does not parse", {'file': pk['file'], 'line': pk['line']})
+
+
+def b6(ctx, rep, T):
+    """B6: a leading-digit guard (`if name starts with a digit { \"_\" + name }`) protects the identifier that is printed
+    only if it tests that very string: the tested subject must be the value emitted on the else branch and the value the
+    prefixed branch embeds (a case conversion between test and emission moves a digit to the front or away from it)."""
+    n = 0
+    for f in [g for _be, (_st, file) in emit.BACKENDS.items() for g in inline.file_views(ctx, file)]:
+        seen = set()
+        for st in f['sites']:
+            for x in vt.walk(st['fmt']):
+                if x.get('k') != 'cond' or 'is_ascii_digit' not in json.dumps(x.get('c'))[:4000]:
+                    continue
+                k = vt.ckey(x)
+                if k in seen:
+                    continue
+                seen.add(k)
+                subj = None
+                for y in vt.walk(vt.unvar(x.get('c'))):
+                    if y.get('k') == 'call' and y.get('f') in ('chars', 'starts_with', 'bytes', 'as_bytes') and y.get('recv') is not None:
+                        subj = y['recv']
+                        break
+                if subj is None:
+                    continue
+                n += 1
+                sk = vt.ckey(subj)
+                else_ok = vt.ckey(x.get('e')) == sk
+                then_ok = any(vt.ckey(h.get('hole')) == sk for y in vt.walk(vt.unvar(x.get('t'))) if y.get('k') == 'fmt' for h in y.get('parts', []) if isinstance(h, dict) and 'hole' in h)
+                be = f['file'].split('/')[-1].replace('.rs', '')
+                rep.check(else_ok and then_ok, 'B6', f"{be}:{f['name']}:digit-guard-subject", 'the tested string is the emitted string', f"{be}: {f['qual']} tests `{vt.show(subj)[:60]}` for a leading digit but emits `{vt.show(x.get('e'))[:60]}` (prefixed form: `{vt.show(x.get('t'))[:50]}`) — the guard does not protect the printed identifier: a name whose *printed* form starts with a digit is emitted as is and the target file does not parse", {'file': f['file'], 'line': st['line']})
+    rep.floor('B6', 'leading-digit guards', n, 3)
 
 
 def b3(ctx, rep, T):
